@@ -270,8 +270,111 @@ def case_reshape(rng: Any, ctx: Ctx, index: int) -> None:
     guarded('C13.pair', other_input)
 
 
+def case_weak(rng: Any, ctx: Ctx, index: int) -> None:
+    """Structures taken from weakly typed arrays (furax.tree.as_structure of values built from Python scalars): the declared output
+    is the structure of what the operator returns, the transpose maps back onto the input structure, and op @ op.T / op.T @ op are
+    legal compositions."""
+    import jax.numpy as jnp
+    import furax
+    shape = tuple(int(v) for v in rng.integers(2, 4, size=int(rng.integers(2, 4))))
+    x: Any = jnp.full(shape, 1.5)
+    if rng.integers(2):
+        x = [x, jnp.full(shape + (2,), 0.5)]
+    s = furax.tree.as_structure(x)
+    kind = gen.pick(rng, ['moveaxis', 'ravel', 'reshape'])
+    if kind == 'moveaxis':
+        op: Any = MoveAxisOperator(0, -1, in_structure=s) if rng.integers(2) else MoveAxisOperator((0, 1), (1, 0), in_structure=s)
+    elif kind == 'ravel':
+        op = RavelOperator(0, 1, in_structure=s)
+    else:
+        op = ReshapeOperator((-1,), in_structure=s) if not isinstance(x, list) else RavelOperator(in_structure=s)
+    LOG.case_key(f'weak-structure:{kind}:{"list" if isinstance(x, list) else "leaf"}', True)
+    LOG.evaluated('C13.out_structure')
+    y = op.mv(x)
+    if furax.tree.as_structure(y) != op.out_structure():
+        LOG.violation('C13', 'C13.out_structure', f'{type(op).__name__}.out_structure/weakly-typed-input',
+                      'the declared output structure is not the structure of op(x) for a weakly typed input',
+                      declared=str(op.out_structure())[:160], actual=str(furax.tree.as_structure(y))[:160])
+        return
+    LOG.evaluated('C13.roundtrip')
+    try:
+        back = op.T
+        if back.out_structure() != op.in_structure() or back.in_structure() != op.out_structure():
+            LOG.violation('C13', 'C13.roundtrip', f'{type(op).__name__}.T/structures/weakly-typed-input', 'structures of the transpose are not swapped')
+            return
+        a, b = op @ back, back @ op
+        a.reduce(), b.reduce()
+    except ValueError as exc:
+        LOG.violation('C13', 'C13.roundtrip', f'{type(op).__name__}.T/composition-refused/weakly-typed-input',
+                      f'op @ op.T or op.T @ op refused: {str(exc)[:120]}')
+
+
 def case(rng: Any, ctx: Ctx, index: int) -> None:
+    if index % 25 == 24:
+        return case_weak(rng, ctx, index)
+    if index % 5 == 4:
+        return case_chain(rng, ctx, index // 5)
     (case_moveaxis, case_ravel, case_reshape)[index % 3](rng, ctx, index)
+
+
+def case_chain(rng: Any, ctx: Ctx, index: int) -> None:
+    """Chains of two or three axis operators (ravel after ravel, reshape after ravel, ...) on leaves of rank 3 to 5, axes of
+    either sign: the reduced chain relabels exactly as the operators applied one after the other (NumPy reference models)."""
+    from .. import refmodels
+    from ..core import quiet
+    from furax._base.core import CompositionOperator
+    gen.begin_case(rng)
+    dt = gen.case_dtype(rng)
+    nl = int(gen.pick(rng, [1, 1, 2]))
+    r0 = int(rng.integers(3, 6))
+    shapes = [tuple(int(v) for v in rng.integers(2, 4, size=r0 + (k if rng.integers(2) else 0))) for k in range(nl)]
+    s = structure(rng, shapes, dt)
+    ops: list[Any] = []
+    cur = s
+    for _ in range(int(rng.integers(2, 4))):
+        rmin = min(len(l.shape) for l in dense.leaves(cur))
+        kind = gen.pick(rng, ['ravel', 'ravel', 'ravel', 'reshape', 'moveaxis'])
+        op = None
+        try:
+            if kind == 'ravel' and rmin >= 2:
+                neg = bool(rng.integers(2))
+                f = int(rng.integers(0, rmin - 1))
+                l = int(rng.integers(f + 1, rmin))
+                op = RavelOperator(f - rmin, l - rmin, in_structure=cur) if neg else RavelOperator(f, l, in_structure=cur)
+            elif kind == 'reshape' and len(dense.leaves(cur)) == 1:
+                sh = dense.leaves(cur)[0].shape
+                op = ReshapeOperator(gen.pick(rng, [(-1,), (sh[0], -1), (-1, sh[-1])]), in_structure=cur)
+            elif kind == 'moveaxis' and rmin >= 2:
+                a, b = (int(v) for v in rng.permutation(rmin)[:2])
+                op = MoveAxisOperator(a - rmin if rng.integers(2) else a, b - rmin if rng.integers(2) else b, in_structure=cur)
+        except ValueError:
+            op = None
+        if op is None:
+            continue
+        ops.append(op)
+        cur = op.out_structure()
+    if len(ops) < 2:
+        return
+    LOG.case_key('chain:' + '>'.join(type(o).__name__ for o in ops) + f':rank{r0}:leaves{nl}', True)
+    LOG.count('C13.chain', '>'.join(type(o).__name__.replace('Operator', '') for o in ops))
+
+    def judge() -> None:
+        x = gen.rand_input(rng, s)
+        ref: Any = x
+        with quiet():
+            for o in ops:
+                model = refmodels.MODELS[type(o).__name__][1]
+                ref = jax.tree.unflatten(jax.tree.structure(o.out_structure()), [np.asarray(a) for a in model(o, ref)])
+        e = CompositionOperator(list(reversed(ops)))
+        r = e.reduce()
+        got = r.mv(x)
+        LOG.evaluated('C13.pair')
+        gl, rl = jax.tree.leaves(got), jax.tree.leaves(ref)
+        if len(gl) != len(rl) or any(np.shape(a) != np.shape(b) or not np.array_equal(np.asarray(a, np.float64), np.asarray(b, np.float64)) for a, b in zip(gl, rl)):
+            LOG.violation('C13', 'C13.pair', f'chain.reduce/{type(r).__name__}/' + '>'.join(type(o).__name__.replace('Operator', '') for o in ops),
+                          'the reduced chain does not relabel like the operators applied in turn',
+                          chain=[dense.describe(o) for o in ops], reduced=dense.describe(r), got=[list(np.shape(a)) for a in gl], expected=[list(np.shape(b)) for b in rl])
+    guarded('C13.pair', judge)
 
 
 def run(ctx: Ctx) -> None:
